@@ -120,7 +120,11 @@ def impl(case):
     import numpy as np
     import msmhelper as mh
     from implutil import canon
-    d = tempfile.mkdtemp(prefix='msmv_c16_', dir='/var/tmp')
+    # ONE directory per worker process, the same file names for every case: the readers see the same
+    # paths again and again with other contents (nothing may be remembered per path)
+    d = os.path.join('/var/tmp', 'msmv_c16_%d' % os.getpid())
+    shutil.rmtree(d, ignore_errors=True)
+    os.makedirs(d)
     try:
         f = os.path.join(d, 'data.dat')
         table = np.array(case['table'], dtype=np.int64)
